@@ -59,14 +59,87 @@ def check_function(chk, module: str, qual: str) -> None:
         shape_ok = all(isinstance(n.ops[0], (ast.Lt, ast.LtE)) and len(n.ops) == 1 for n in norms) and all(isinstance(c, (int, float)) and 0 < c <= EPS_MAX for c in consts) and len(consts) >= 1
         lefts = [norm(n.left) for n in norms]
         left_ok = all(l.endswith("_norm") or "linalg.norm(" in l for l in lefts)
+        too_wide = [c for c in consts if isinstance(c, (int, float)) and c > EPS_MAX] and all(isinstance(n.ops[0], (ast.Lt, ast.LtE)) and len(n.ops) == 1 for n in norms)
         chk.expect(
             shape_ok and left_ok,
-            "degenerate-guard",
+            "degenerate-guard" if too_wide else "degenerate-guard-form",
             fi.site(g),
             f"early return only when a cross product is (nearly) zero: `{norm(g.test)[:70]}`",
             f"early return under `{norm(g.test)[:80]}` is not a collinearity test with a tolerance <= {EPS_MAX}: non-degenerate geometries get the fallback value instead of phi",
             K(fi, f"guard:{norm(g.test)[:50]}"),
         )
+    # numpy.clip(c, -1, 1) is read as the identity by the algebra: that needs |c| <= 1, i.e. c is a dot product of vectors of length <= 1
+    inl = Inliner(fi.node)
+    from sa.flow import FlowMap
+
+    fmc = FlowMap(fi.node)
+
+    def unit_status(e: ast.AST, at, depth: int = 6):
+        """('le1', None) when the vector has length <= 1 by construction; ('no', reason) when it is v / |w| with another w; ('?', text) unknown."""
+        if depth == 0:
+            return ("?", norm(e))
+        if isinstance(e, ast.Name):
+            d = inl.reaching(e.id, at)
+            if d is None:
+                return ("?", e.id)
+            return unit_status(d, inl.stmt_of_value(d) or at, depth - 1)
+        if isinstance(e, ast.IfExp):
+            a = unit_status(e.body, at, depth - 1)
+            # else-branch `v` is taken only when |v| <= eps
+            m = astq.match(e.test, "N_ > E_")
+            small = False
+            if m:
+                nn = m["N_"]
+                if isinstance(nn, ast.Name):
+                    nd = inl.reaching(nn.id, at)
+                    nn = nd if nd is not None else nn
+                mm = astq.match(nn, "numpy.linalg.norm(V_)") or astq.match(nn, "np.linalg.norm(V_)")
+                eps = Folder(repo, module).try_fold(m["E_"])
+                small = bool(mm) and norm(mm["V_"]) == norm(e.orelse) and isinstance(eps, float) and eps <= 1.0
+            if a[0] == "le1" and small:
+                return ("le1", None)
+            return a if a[0] != "le1" else ("?", norm(e))
+        if isinstance(e, ast.BinOp) and isinstance(e.op, ast.Div):
+            den = e.right
+            if isinstance(den, ast.Name):
+                dd = inl.reaching(den.id, at)
+                den = dd if dd is not None else den
+            mm = astq.match(den, "numpy.linalg.norm(V_)") or astq.match(den, "np.linalg.norm(V_)")
+            if mm:
+                if norm(mm["V_"]) == norm(e.left):
+                    return ("le1", None)
+                return ("no", f"`{norm(e)}` divides {norm(e.left)} by the length of {norm(mm['V_'])}")
+            return ("?", norm(e))
+        if isinstance(e, ast.Call) and astq.callee_name(e) == "cross" and len(e.args) == 2:
+            a, b = unit_status(e.args[0], at, depth - 1), unit_status(e.args[1], at, depth - 1)
+            for x in (a, b):
+                if x[0] != "le1":
+                    return x
+            return ("le1", None)
+        return ("?", norm(e))
+
+    for c in [n for n in ast.walk(fi.node) if isinstance(n, ast.Call) and astq.callee_name(n) == "clip"]:
+        st = fmc.stmt_of(c)
+        arg = c.args[0] if c.args else None
+        if isinstance(arg, ast.Name):
+            d = inl.reaching(arg.id, st)
+            arg_at = inl.stmt_of_value(d) if d is not None else st
+            arg = d if d is not None else arg
+        else:
+            arg_at = st
+        lohi = [Folder(repo, module).try_fold(a) for a in c.args[1:3]]
+        if not (isinstance(arg, ast.Call) and astq.callee_name(arg) == "dot" and len(arg.args) == 2 and lohi == [-1.0, 1.0]):
+            chk.error("clip-noop", fi.site(c), f"`{norm(c)[:60]}`: clipped quantity is not a dot product clipped to [-1, 1]")
+            continue
+        sts = [unit_status(a, arg_at or st) for a in arg.args]
+        bad = [x for x in sts if x[0] == "no"]
+        unk = [x for x in sts if x[0] == "?"]
+        if bad:
+            chk.violation("clip-noop", fi.site(c), f"{bad[0][1]}: the vector is not of unit length, so the dot product clipped to [-1, 1] can exceed 1 and the clip changes the cosine term while the sine term keeps its scale - the angle is wrong whenever the two bond lengths differ enough", K(fi, "clip"))
+        elif unk:
+            chk.error("clip-noop", fi.site(c), f"length bound of `{unk[0][1][:60]}` not established")
+        else:
+            chk.ok("clip-noop", fi.site(c), "the clipped dot product is between vectors of length <= 1: the clip only removes round-off")
     # every other statement before the atan2 was interpreted; after it: the value is returned (radians)
     rets = [r for r in astq.walk_no_nested(fi.node) if isinstance(r, ast.Return) and r.value is not None]
     final = [r for r in rets if r.lineno >= res["atan2_stmt"].lineno]
@@ -128,11 +201,12 @@ def run(chk) -> None:
     )
     chk.trusted = ["CPython ast", "numpy cross/dot/norm/arctan2 semantics", "IUPAC-IUB torsion table (spec/iupac_torsions.json)"]
     chk.assumptions = ["non-degenerate input (no three consecutive points collinear)", "floating-point error is not decided"]
+    chk.robust |= {"torsion-closed-form", "clip-noop", "chi-atoms", "chi-agree", "backbone-atoms", "cis-trans", "cis-trans-atoms", "bph-split", "bph-class-table", "chi-class-units", "chi-dispatch", "degenerate-guard"}
     check_function(chk, T1, "calculate_torsion_angle_coords")
     check_function(chk, T2, "calculate_torsion_angle")
     check_users(chk)
     chk.floor("torsion-closed-form", 2)
-    chk.floor("degenerate-guard", 2)
+    chk.floor("degenerate-guard-form", 2)
 
 
 MANIFEST_ENTRY = {
